@@ -351,6 +351,27 @@ func genC02(g *gen) {
 	if g.thorough {
 		g.tallTreeWalk()
 	}
+	// two live keys of different heights used in turn: the bounds of one key must not follow the other's
+	g.note("keys of different heights interleaved")
+	{
+		sa, sb := g.bytes(48), g.bytes(48)
+		g.op("x.new ha %s 6 0 0", hx(sa))
+		g.op("x.new hb %s 4 1 0", hx(sb))
+		r := g.op("x.setidx ha 20")
+		g.check(r == "ok", "forward-setindex-accepted", "SetIndex(20) on a height-6 key is refused after a height-4 key was created: "+r, g.lastOps(3)...)
+		r = g.op("x.sign ha 01")
+		g.check(strings.HasPrefix(r, "ok "), "sign-below-limit", "a height-6 key at index 20 does not sign after a height-4 key was created: "+trunc(r, 60), g.lastOps(4)...)
+		g.op("x.setidx hb 15")
+		g.op("x.sign hb 02")
+		g.op("x.new hc %s 6 2 0", hx(sa)) // a taller key appears while hb is exhausted
+		g.op("x.sign ha 03")
+		r = g.op("x.setidx hb 17")
+		g.check(strings.HasPrefix(r, "refuse:"), "setindex-refused", "an exhausted height-4 key accepts SetIndex(17) after a height-6 key was created: "+r, g.lastOps(6)...)
+		r = g.op("x.sign hb 04")
+		g.check(strings.HasPrefix(r, "refuse:"), "no-signature-after-exhaustion", "an exhausted height-4 key signs after a height-6 key was created: "+trunc(r, 60), g.lastOps(7)...)
+		info := g.op("x.info hb")
+		g.check(field(info, "idx") == "16", "getindex-is-counter", "the index of an exhausted height-4 key moves after refused operations: "+field(info, "idx"), g.lastOps(8)...)
+	}
 	type plan struct{ h, hf, nops int }
 	plans := []plan{{4, 0, 60}, {4, 1, 60}, {4, 2, 40}, {6, 0, 40}, {8, 0, 30}}
 	if g.thorough {
@@ -911,6 +932,12 @@ func genC06(g *gen) {
 			for cnt := 0; idx < n && cnt < 96; cnt++ {
 				msg := make([]byte, rng.Intn(40))
 				rng.Read(msg)
+				if cnt%5 == 2 { // a refused SetIndex (beyond the tree, or backwards) must leave the key exactly as it was
+					guard(func() string { x.SetIndex(uint32(n + rng.Intn(7))); return "" })
+					if idx > 0 {
+						guard(func() string { x.SetIndex(uint32(rng.Intn(idx))); return "" })
+					}
+				}
 				if cnt%3 == 1 { // an unrelated verification with another Winternitz parameter must leave the key alone
 					guard(func() string {
 						xmss.VerifyWithCustomWOTSParamW(msg, make([]byte, []int{4420, 1252}[cnt%2]+32*(j.h-4)), pk, uint32([]int{4, 256}[cnt%2]))
